@@ -8,6 +8,7 @@ require (
 	dubbo.apache.org/dubbo-go/v3 v3.0.4
 	github.com/apache/dubbo-getty v1.5.0
 	github.com/arana-db/parser v0.2.17
+	github.com/go-sql-driver/mysql v1.6.0
 	google.golang.org/grpc v1.56.3
 	pgregory.net/rapid v1.3.0
 	seata.apache.org/seata-go v0.0.0
@@ -26,7 +27,6 @@ require (
 	github.com/davecgh/go-spew v1.1.1 // indirect
 	github.com/dsnet/compress v0.0.1 // indirect
 	github.com/dubbogo/gost v1.13.2 // indirect
-	github.com/go-sql-driver/mysql v1.6.0 // indirect
 	github.com/go-viper/mapstructure/v2 v2.2.1 // indirect
 	github.com/goccy/go-json v0.10.2 // indirect
 	github.com/gogo/protobuf v1.3.2 // indirect
